@@ -62,8 +62,10 @@ type Runner struct {
 	verifyAt       int64                 // virtual ms at which that call is due (0: none)
 	verifyOn       string                // the sender
 	quietFlag      atomic.Bool           // mirror of quiet, readable without W.Mu (FSM goroutines)
-	holdISms       int                   // >0: the next InstallSnapshot request is held that long in the network (staleis macro)
-	heldISFrom     string                // its sender, once seen
+	slowISResp     int                   // id of the InstallSnapshot exchange whose response is delayed until slowISUntil
+	slowISUntil    int64
+	holdISms       int    // >0: the next InstallSnapshot request is held that long in the network (staleis macro)
+	heldISFrom     string // its sender, once seen
 	heldISUntil    int64
 	dropAppendAcks bool // acknowledgements of AppendEntries that carry entries are lost (inheritedtail macro)
 	quiet          bool
@@ -279,6 +281,12 @@ func (r *Runner) policy(m *sim.Msg, resp bool) sim.Verdict {
 	if r.verifyOnIS > 0 && !resp && m.Kind == sim.KSnapshot && r.verifyAt == 0 {
 		r.verifyAt, r.verifyOn = r.W.Now()+int64(r.verifyOnIS-1), m.From
 		r.verifyOnIS = 0
+		// the answer to this request is still on its way when the call is made
+		r.slowISResp, r.slowISUntil = m.ID, r.verifyAt+1+int64(r.tape()%3)
+	}
+	if resp && m.Kind == sim.KSnapshot && m.ID == r.slowISResp && r.W.Now() < r.slowISUntil && !r.quiet {
+		m.ReadyAt = r.slowISUntil
+		return sim.VHold
 	}
 	if r.dropAppendAcks && resp && !r.quiet {
 		if ae, ok := m.Req.(*raft.AppendEntriesRequest); ok && len(ae.Entries) > 0 {
